@@ -10,6 +10,9 @@ META = {
     "level": "Decides necessary conditions of 'equal => same matches and same hash' per class: (R1) no structural __eq__ paired with identity hash; (R2) hash reads only compared attributes and applies the same non-injective normaliser (set(), _convert_ops) equality applies; (R3) every instance attribute read by match/force_True/force_False is compared by equality or derived from the same constructor input as a compared attribute; (R4) negation of a version restriction changes what equality sees; (R5) the restriction-keyed caches are keyed by the restriction object itself. Does NOT decide match equality on concrete values. (R6) a memoised __hash__ refuses instances whose hashed fields can still change; (R7) match never depends on a strict subset of a field combination that equality folds together (negate/operator set).",
     "note": "attributes are assumed to vary independently; snakeoil GenericEquality/WeaklyCachedABC semantics are library facts; classes whose equality is identity are trivially consistent",
 }
+META["technique"] += "; " + 'proxy-object rule (GetAttrProxy): what equality compares must identify what the proxy serves'
+META["level"] += " Added after the second round of independent changes: " + '(R8) a class that serves attributes through a proxy object compares the text the proxy was built from, or compares the proxy by an equality as fine as that text (CPV.__eq__ is ver_cmp based, =* matching is textual).'
+META["technique"] += "; " + 'generic pack G on the anchored files (optional-flag shift, closures outliving a loop iteration, single-pass iterables consumed twice, %-templates built from data, in-place writes to class-level / memoised objects, generators mutating what they yielded, memo keys that are projections)'
 
 NONINJECTIVE = {"set", "frozenset", "sorted", "len", ".lower", "via:_convert_ops", "ver_cmp", "cpv.ver_cmp", "stable_unique"}
 MATCH_METHODS = ("match", "force_True", "force_False")
